@@ -435,6 +435,71 @@ pub fn run(args: &Args) -> i32 {
     ctx.stats.merge(s);
     crate::diag!("  [C02] part D done at {:.1}s", ctx.elapsed());
 
+    // (E) refused calls in the middle of a program: the caller handles the error and carries on. Whatever was refused,
+    // a finish() that then reports success must still have produced a valid archive.
+    let refusals: Vec<(&'static str, Vec<Call>)> = {
+        let c17 = content_class(2, seed);
+        let c300 = content_class(3, seed);
+        let mut trunc = rec(0xbeef, b"");
+        trunc[2] = 4;
+        trunc.extend_from_slice(b"ab");
+        let sx = |m: u16, large: bool, level: Option<i32>| Call::StartExtra { name: "rx".into(), opts: FOpts { large, level, ..FOpts::m(m) } };
+        vec![
+            ("extra-truncated-deflated", vec![sx(8, false, None), Call::Write(trunc.clone()), Call::EndExtra, Call::Write(c300.clone())]),
+            ("extra-reserved-id-zstd", vec![sx(93, false, None), Call::Write(rec(0x000a, b"")), Call::EndExtra, Call::Write(c300.clone())]),
+            ("extra-zip64-id-then-central", vec![sx(0, true, None), Call::Write(rec(0x0001, b"")), Call::EndLocalStartCentral, Call::Write(rec(0xcafe, b"c")), Call::EndExtra, Call::Write(c17.clone())]),
+            ("extra-central-truncated-bzip2", vec![sx(12, false, None), Call::EndLocalStartCentral, Call::Write(trunc.clone()), Call::EndExtra, Call::Write(c300.clone())]),
+            ("extra-too-long-deflated", vec![sx(8, false, None), Call::Write(rec(0xbeef, &vec![1u8; 40000])), Call::Write(rec(0xbeef, &vec![2u8; 40000])), Call::EndExtra, Call::Write(c300.clone())]),
+            ("extra-bad-level", vec![sx(8, false, Some(77)), Call::Write(rec(0xbeef, b"v")), Call::EndExtra, Call::Write(c300.clone())]),
+            ("extra-truncated-implicit-end", vec![sx(8, false, None), Call::Write(trunc.clone()), Call::StartFile { name: "nx".into(), opts: FOpts::m(8) }, Call::Write(c300.clone())]),
+            ("name-too-long", vec![Call::StartFile { name: "n".repeat(65536), opts: FOpts::m(8) }, Call::Write(c17.clone())]),
+            ("name-too-long-aligned", vec![Call::StartAligned { name: "n".repeat(65536), opts: FOpts::m(0), align: 64 }, Call::Write(c17.clone())]),
+            ("name-too-long-dir", vec![Call::AddDir { name: "n".repeat(65535), opts: FOpts::m(0) }]),
+            ("name-too-long-rawcopy", vec![Call::RawCopy { src: 0, idx: 1, rename: Some("n".repeat(65536)), raw_open: false }]),
+            ("bad-level-deflated", vec![Call::StartFile { name: "lv".into(), opts: FOpts { level: Some(77), ..FOpts::m(8) } }, Call::Write(c300.clone())]),
+            ("bad-level-zstd", vec![Call::StartFile { name: "lz".into(), opts: FOpts { level: Some(-99), ..FOpts::m(93) } }, Call::Write(c300.clone())]),
+            ("unsupported-method", vec![Call::StartFile { name: "um".into(), opts: FOpts::m(1) }, Call::Write(c17.clone())]),
+            ("end-extra-never-begun", vec![Call::EndExtra]),
+            ("end-local-never-begun", vec![Call::EndLocalStartCentral]),
+            ("comment-too-long-then-finish-then-short", vec![Call::SetComment(vec![b'c'; 65536]), Call::Finish, Call::SetComment(b"ok".to_vec())]),
+        ]
+    };
+    {
+        let nr = refusals.len() as u64;
+        let n1 = n + 1; // composite or nothing
+        let total = n1 * nr * n1 * 2;
+        ctx.bound("E_refusals", json!({"refused_call_groups": refusals.iter().map(|r| r.0).collect::<Vec<_>>(), "shape": "[composite or nothing] + refused group + [composite or nothing] + finish, twice (the second finish is the caller's retry)", "sequences": total}));
+        let s = par_for(total, 8, |i, st| {
+            let twice = i % 2 == 1;
+            let j = i / 2;
+            let (a, r, b) = ((j / (nr * n1)) as usize, ((j / n1) % nr) as usize, (j % n1) as usize);
+            let mut calls = vec![];
+            let mut uses_pw = false;
+            for k in [a, usize::MAX, b] {
+                if k == usize::MAX {
+                    calls.extend(refusals[r].1.iter().cloned());
+                } else if k > 0 {
+                    calls.extend(comps[k - 1].1.iter().cloned());
+                    uses_pw |= comps[k - 1].0.starts_with("zipcrypto");
+                }
+            }
+            calls.push(Call::Finish);
+            if twice {
+                // a caller that sees finish() fail fixes what it can (here: nothing) and tries again
+                calls.push(Call::Finish);
+            }
+            run_calls(&calls, None, &src, true, if uses_pw { Some(PW) } else { None }, st, (13 << 32) + i, &format!("refusal/{}", refusals[r].0), None);
+        });
+        ctx.stats.merge(s);
+        crate::diag!("  [C02] part E done at {:.1}s", ctx.elapsed());
+    }
+
+    // (An earlier part F injected one transient I/O failure at every I/O call with a caller that retries and carries on,
+    // and demanded a valid archive whenever finish() then reported success. The unchanged crate fails that at many
+    // points: once a call has reported an I/O error it makes no promise about what a later finish() leaves behind, and
+    // C11 states that a reported error is an acceptable outcome. The part demanded more than C02 states and was removed;
+    // see DESIGN.md 10.8.)
+
     // foreign judges
     let items = std::mem::take(&mut col.items.lock().unwrap().0);
     match Batch::new("c02") {
